@@ -156,6 +156,18 @@ func (u *Upstream) closeWithError(ctx context.Context, causeError error, opts ..
 		v(&opt)
 	}
 
+	// the stream is closed from here on (see the deferred cancel), whatever becomes of the close
+	// request, so the closed event is reported on every path
+	defer func() {
+		u.eventDispatcher.addHandler(func() {
+			u.Config.ClosedEventHandler.OnUpstreamClosed(&UpstreamClosedEvent{
+				Config: u.Config,
+				State:  *u.State(),
+				Err:    causeError,
+			})
+		})
+	}()
+
 	state := u.stateWithoutLock()
 	resp, err := u.wireConn.SendUpstreamCloseRequest(ctx, &message.UpstreamCloseRequest{
 		StreamID:            u.ID,
@@ -175,15 +187,6 @@ func (u *Upstream) closeWithError(ctx context.Context, causeError error, opts ..
 			ReceivedMessage: resp,
 		}
 	}
-	defer func() {
-		u.eventDispatcher.addHandler(func() {
-			u.Config.ClosedEventHandler.OnUpstreamClosed(&UpstreamClosedEvent{
-				Config: u.Config,
-				State:  *u.State(),
-				Err:    causeError,
-			})
-		})
-	}()
 	return nil
 }
 
